@@ -452,8 +452,11 @@ def finish(run: Run, evidence_path: str, checker_cmd: str) -> int:
             json.dump(payload, f, indent=1, default=repr)
 
     # bounded-run failures are concrete
+    import re as _re
     for bf in run.bounded.get('failures', []):
-        kf = next((k for k in known_here if k.get('obligation') == bf.get('obligation')), None)
+        # a known finding is identified by the obligation AND the specific failing input / history (regex on the failure text)
+        kf = next((k for k in known_here if k.get('obligation') == bf.get('obligation') and k.get('match')
+                   and _re.search(k['match'], str(bf.get('what', '')))), None)
         if kf is not None:
             known_hits.append((bf.get('obligation'), kf, {'reproduced': True, 'how': 'bounded run', **bf}))
             continue
